@@ -124,7 +124,37 @@ func c10Proj(r *release.Release) string {
 			ts = append(ts, fmt.Sprint(h.LastRun.StartedAt.UnixNano(), h.LastRun.CompletedAt.UnixNano()))
 		}
 	}
-	return string(nb) + "|" + strings.Join(ls, ",") + "|t=" + strings.Join(ts, ";")
+	// values are handed to templates as Go values: a number that comes back as another Go type (a string-backed
+	// json.Number, say) compares and prints differently there although it serialises to the same JSON text. The generated
+	// content only uses the types JSON decoding yields (float64, string, bool, nil, map, slice), so equality is exact.
+	ty := c10Types(r.Config)
+	if r.Chart != nil {
+		ty += "/" + c10Types(r.Chart.Values)
+	}
+	return string(nb) + "|" + strings.Join(ls, ",") + "|t=" + strings.Join(ts, ";") + "|types=" + ty
+}
+
+// c10Types spells out the Go type of every leaf of a values tree, in key order.
+func c10Types(v interface{}) string {
+	switch t := v.(type) {
+	case map[string]interface{}:
+		if t == nil {
+			return "nilmap"
+		}
+		var parts []string
+		for _, k := range sortedKeys(t) {
+			parts = append(parts, k+":"+c10Types(t[k]))
+		}
+		return "{" + strings.Join(parts, ",") + "}"
+	case []interface{}:
+		var parts []string
+		for _, e := range t {
+			parts = append(parts, c10Types(e))
+		}
+		return "[" + strings.Join(parts, ",") + "]"
+	default:
+		return fmt.Sprintf("%T", v)
+	}
 }
 
 type c10Backend struct {
@@ -529,6 +559,14 @@ func diffField(a, b string) string {
 		}
 	}
 	if len(pa) > 1 && len(pb) > 1 && pa[1] != pb[1] {
+		ta, tb := strings.LastIndex(pa[1], "|types="), strings.LastIndex(pb[1], "|types=")
+		if ta >= 0 && tb >= 0 && pa[1][:ta] == pb[1][:tb] {
+			return "value-types"
+		}
+		ia, ib := strings.LastIndex(pa[1], "|t="), strings.LastIndex(pb[1], "|t=")
+		if ia >= 0 && ib >= 0 && pa[1][:ia] == pb[1][:ib] {
+			return "instants"
+		}
 		return "labels"
 	}
 	return "none"
